@@ -223,6 +223,7 @@ def parsePayload (π : OneofOrder) (memo : Bytes) : Res Payload :=
         | some .null => .err "parse:no-orbiter-key"
         | some _ =>
           if j.nullInArray then .err "parse:null-in-array"
+          else if j.ambiguous then .err "parse:ambiguous-oneof"
           else ((decWrapper π j).mapErr fun t => "parse:codec:" ++ t) >>= RawPayload.validate
     | .null => .err "parse:root-keys"
     | _ => .err "parse:not-json"
